@@ -95,6 +95,7 @@ type msymRec struct {
 type CallRec struct {
 	Args    []Term
 	Results []Term
+	Target  string
 }
 
 func (st *State) clone() *State {
@@ -284,6 +285,16 @@ func (st *State) ifaceClosureG(binders, read, guard string) {
 	}
 	st.sc.emit("(assert (forall %s (! (=> %s (and %s)) :pattern (%s))))", binders, guard, strings.Join(parts, " "), read)
 }
+// declOwns: clo.owns(f, o) -- cell o holds a variable captured by the function value f. Captured variables
+// are heap cells, never package-level or ghost variables (whose addresses are the small constants).
+func (st *State) declOwns() {
+	if st.sc.declared["fun:clo.owns"] {
+		return
+	}
+	st.sc.declFun("clo.owns", []Sort{SInt, SInt}, SBool)
+	st.sc.emit("(assert (forall ((f Int) (o Int)) (! (=> (clo.owns f o) (> o 100000)) :pattern ((clo.owns f o)))))")
+}
+
 func (st *State) cellFam(s Sort) *Family {
 	name := famCell(s)
 	_, existed := st.fams[name]
